@@ -109,7 +109,13 @@ def main():
             if props == ["all"]:
                 props = ALL
             res = run_checks(name, props)
-            meta.setdefault("checks", {}).update(res)
+            meta.setdefault("checks", {})
+            for p_, r_ in res.items():
+                prev = meta["checks"].get(p_)
+                # a catch is never overwritten by a later (possibly scaled-down) miss
+                if prev and prev.get("exit") == 1 and r_.get("exit") != 1:
+                    continue
+                meta["checks"][p_] = r_
             meta["ran"] = "tools/seeded.py run %s (quick tier, VERIF_SEED=%s)" % (name, os.environ.get("VERIF_SEED", "0"))
             json.dump(meta, open(mp, "w"), indent=1)
         return 0
